@@ -26,6 +26,7 @@ type raceOpts struct {
 	Concern        int
 	Children       bool
 	Store          bool
+	MaxDirtyOps    uint64 // > 0: the merger's dirty-data throttle is active (it waits for the persister)
 }
 
 func raceOptionSets(tier string) []raceOpts {
@@ -35,22 +36,25 @@ func raceOptionSets(tier string) []raceOpts {
 			for _, cp := range []bool{false, true} {
 				for _, cc := range []int{0, 2} {
 					for _, ch := range []bool{false, true} {
-						out = append(out, raceOpts{fmt.Sprintf("ds=%v cp=%v cc=%d children=%v store", ds, cp, cc, ch), ds, cp, cc, ch, true})
+						out = append(out, raceOpts{fmt.Sprintf("ds=%v cp=%v cc=%d children=%v store", ds, cp, cc, ch), ds, cp, cc, ch, true, 0})
 					}
 				}
 			}
 		}
-		out = append(out, raceOpts{"in-memory ds=true", true, false, 0, false, false})
+		out = append(out, raceOpts{"in-memory ds=true", true, false, 0, false, false, 0})
+		out = append(out, raceOpts{"ds=false cp=false cc=0 children=false store MaxDirtyOps=1", false, false, 0, false, true, 1})
+		out = append(out, raceOpts{"ds=true cp=true cc=2 children=true store MaxDirtyOps=1", true, true, 2, true, true, 1})
 		return out
 	}
 	// quick: covering pairs of the four options
 	return []raceOpts{
-		{"ds=false cp=false cc=0 children=false store", false, false, 0, false, true},
-		{"ds=true cp=true cc=2 children=false store", true, true, 2, false, true},
-		{"ds=true cp=false cc=0 children=true store", true, false, 0, true, true},
-		{"ds=false cp=true cc=2 children=true store", false, true, 2, true, true},
-		{"ds=true cp=false cc=2 children=false store", true, false, 2, false, true},
-		{"ds=false cp=true cc=0 children=false store", false, true, 0, false, true},
+		{"ds=false cp=false cc=0 children=false store", false, false, 0, false, true, 0},
+		{"ds=true cp=true cc=2 children=false store", true, true, 2, false, true, 0},
+		{"ds=true cp=false cc=0 children=true store", true, false, 0, true, true, 0},
+		{"ds=false cp=true cc=2 children=true store", false, true, 2, true, true, 0},
+		{"ds=true cp=false cc=2 children=false store", true, false, 2, false, true, 0},
+		{"ds=false cp=true cc=0 children=false store", false, true, 0, false, true, 0},
+		{"ds=false cp=false cc=0 children=false store MaxDirtyOps=1", false, false, 0, false, true, 1},
 	}
 }
 
@@ -58,7 +62,7 @@ func raceOptionSets(tier string) []raceOpts {
 func raceBuild(s *vs.Sched, o raceOpts, dir string) {
 	s.Spawn("root", func() {
 		co := moss.CollectionOptions{MaxPreMergerBatches: 1, DeferredSort: o.DeferredSort, CachePersisted: o.CachePersisted,
-			MinMergePercentage: 100, MergerIdleRunTimeoutMS: -1}
+			MinMergePercentage: 100, MergerIdleRunTimeoutMS: -1, MaxDirtyOps: o.MaxDirtyOps}
 		var coll moss.Collection
 		var store *moss.Store
 		var err error
